@@ -136,6 +136,8 @@ def calls(rng, matrix, tier):
         for hoa in (None, "v", "x y"):
             for q in (None, "a&b=c"):
                 out.append(("ctxCall", {"p": pv, "hoa": hoa, "q": q}, "r", None))
+    for n in (45, 46):      # the `limited` endpoint takes 48 bytes: a JSON string of 45 / 46 characters is 47 / exactly 48 bytes long
+        out.append(("limited", {"body": "x" * n}, "r", None))
     out.append(("names", {"type": 1, "fooBar": UUID, "async": 2, "camelCase": None, "self": 3, "snakeArg": [4, 5], "match": True}, "n", None))
     out.append(("safeMix", {"auth": "tok", "safePath": "sp", "unsafePath": "u p/x", "safeQuery": "s&q", "unsafeQuery": "", "safeHeader": "sh",
                             "unsafeHeader": "uh", "dnlQuery": None, "safeInt": 5, "body": {"a": 1}}, "r", None))
